@@ -524,7 +524,7 @@ func (e *c15Engine) judge(l *c15Live, confirmRun bool) (cands []c15Candidate, ba
 }
 
 func c15Streams(r *core.Run, bins bridgeBins) []*core.Proc {
-	e := &c15Engine{r: r, stall: 30 * time.Second, lives: map[int]*c15Live{}, chunkHist: map[string]int{}}
+	e := &c15Engine{r: r, stall: 20 * time.Second, lives: map[int]*c15Live{}, chunkHist: map[string]int{}}
 	srv, err := bridgeNewTCPServer(e.serve)
 	if err != nil {
 		r.Broken("tcp server: " + err.Error())
@@ -544,6 +544,10 @@ func c15Streams(r *core.Run, bins bridgeBins) []*core.Proc {
 	t0 := time.Now()
 	for _, round := range c15Plan(r) {
 		if !topo.Front.Alive() || !topo.Back.Alive() {
+			break
+		}
+		if len(cands) >= 3 {
+			r.Inconclusive(fmt.Sprintf("rounds from #%d on were not run: three connections had already stalled (they are re-run alone below)", round[0].Round))
 			break
 		}
 		for _, l := range e.round(round) {
@@ -861,8 +865,8 @@ func c15E2(r *core.Run, bin string) {
 	for _, c := range cases {
 		byID[c.ID] = c
 	}
-	spec, _ := json.Marshal(map[string]interface{}{"bound_ms": 30000, "cases": cases})
-	stdout, logPath, err := r.RunWorker(bin, "c15", spec, 6*time.Minute)
+	spec, _ := json.Marshal(map[string]interface{}{"bound_ms": 10000, "cases": cases})
+	stdout, logPath, err := r.RunWorker(bin, "c15", spec, 5*time.Minute)
 	sc := bufio.NewScanner(bytes.NewReader(stdout))
 	sc.Buffer(make([]byte, 1<<20), 1<<26)
 	seen := 0
@@ -912,7 +916,7 @@ func c15E2(r *core.Run, bin string) {
 func C15(r *core.Run) {
 	r.SetRule("E1: harness TCP clients -> real tcp-bridge-frontend -> real tcp-bridge-backend -> harness TCP server, rounds of 1/4/16/48 concurrent connections, both directions at once, each direction an independent stream header+PRNG(seed,conn,dir) written with sizes {1,2,1023,1024,1025,4096,32768,65537,random} and read with buffers {1,7,1024,65536}; every read is compared with the regenerated stream (prefix), length+SHA-256 at the end; class = (concurrency, who speaks first, per direction write size/read buffer/length class). Passthrough: grammar-generated requests of C02 plus websocket upgrades on other paths / plain and other-protocol requests on the streaming path through the backend binary to a raw recording backend under the request fidelity oracle. E2: connection.Handler/DialWebsocket/WebsocketNetConn in-process with empty writes, 1-byte reads, raw gorilla peers interleaving binary/ping/pong frames, single writes up to 16 MiB")
 	r.Assume("passthrough: well-formed requests only (C02 generator); hop-by-hop fields are legitimately removed, upgrade requests keep Connection/Upgrade; X-Forwarded-For may gain the proxy's client address after the sender's values; only HTTP/1.1 towards the backend binary (h2c not exercised)")
-	r.Assume("a stream that stops making progress for 30 s counts only if the same connection plan stalls again when re-run alone")
+	r.Assume("a stream that stops making progress for 20 s (E1) / 10 s (E2) counts only if the same connection plan stalls again when re-run alone")
 	bins := bridgeBuild(r)
 	worker := r.MustBuild(r.BuildWorker())
 
